@@ -51,6 +51,47 @@ let prec_check line =
   | _ -> failwith "prec.sb"
 
 
+(* ---- precision cache: "K K K ... | f step" where K = T or O; one process per case on the implementation side.
+   Model input (history-driven): "<case> # <impl answers>" : an OS measurement cannot be scripted, so the model is
+   driven with the first OS answer the implementation gave as the value an OS measurement yields. ---- *)
+let kinds_of s = List.map (fun t -> if t = "T" then KTsc else KOs) (List.filter (fun t -> t <> "") (String.split_on_char ' ' s))
+
+let parse_precq case =
+  match String.split_on_char '|' case with
+  | [ks; fs] ->
+    (match List.filter (fun t -> t <> "") (toks (String.trim fs)) with
+     | [f; step] -> (kinds_of (String.trim ks), n_of_string f, n_of_string step)
+     | _ -> failwith "precq f step")
+  | _ -> failwith "precq"
+
+let answers_of s = List.map n_of_string (List.filter (fun t -> t <> "") (toks (String.trim s)))
+
+let precq line =
+  (* model input: case # answers *)
+  let (case, ans) = match String.index_opt line '#' with
+    | Some i -> (String.sub line 0 i, answers_of (String.sub line (i + 1) (String.length line - i - 1)))
+    | None -> (line, []) in
+  let (ks, f, step) = parse_precq case in
+  match tsc_duration step N0 f with
+  | Panic p -> "panic " ^ string_of_panic p
+  | Ok tscv ->
+    let os_first =
+      let rec go ks ans = match ks, ans with
+        | KOs :: _, a :: _ -> a
+        | _ :: ks', _ :: ans' -> go ks' ans'
+        | _, _ -> n_of_small 1000 in
+      go ks ans in
+    let qs = List.map (fun k -> match k with KTsc -> (k, tscv) | KOs -> (k, os_first)) ks in
+    "ok " ^ String.concat " " (List.map string_of_n (prec_queries pcache_empty qs))
+
+let precq_check line =
+  let (c, i) = split_sb line in
+  let (ks, f, step) = parse_precq c in
+  match tsc_duration step N0 f, toks i with
+  | Ok tscv, "ok" :: ans ->
+    verdict (precq_sb ks tscv (List.map n_of_string (List.filter (fun t -> t <> "") ans))) "reported-precision-is-not-the-first-measurement-of-its-own-timer-kind"
+  | _, _ -> verdict false ("outcome:" ^ i)
+
 let dispatch mode line =
   match mode with
   | "tsc" -> tsc line
@@ -59,6 +100,8 @@ let dispatch mode line =
   | "tsc.sb" -> tsc_check line
   | "dur.sb" -> dur_check line
   | "prec.sb" -> prec_check line
+  | "precq" -> precq line
+  | "precq.sb" -> precq_check line
   | _ -> failwith ("unknown mode " ^ mode)
 
 let () = main dispatch
